@@ -213,6 +213,20 @@ def first_diff(ms, xs, scale, exact, tol=TOL):
     return {"len_model": len(ms), "len_impl": len(xs)}
 
 
+class _First:
+    """keeps the first reported problem"""
+
+    def __init__(self):
+        self.msg = None
+
+    def set(self, msg):
+        if self.msg is None:
+            self.msg = msg
+
+    def __bool__(self):
+        return self.msg is not None
+
+
 class Pending:
     """requests to the model driver with the continuation that compares the answer"""
 
@@ -308,35 +322,35 @@ def leg_geometry(ctx, P, spec):
     }
     # ---- monitor: the statement of the property on the real numbers ----------------------
     ctx.monitor_evals += 1
-    bad = None
+    bad = _First()
     for ax, ((lo, hi), n) in enumerate(zip(b, spec["shape"])):
         lo_f, hi_f = float(lo), float(hi)
         dxe = (hi_f - lo_f) / n
         if abs(impl["dx"][ax] - dxe) > TOL * max(abs(dxe), 1e-300):
-            bad = f"dx[{ax}]={impl['dx'][ax]!r} != (hi-lo)/N={dxe!r}"
+            bad.set(f"dx[{ax}]={impl['dx'][ax]!r} != (hi-lo)/N={dxe!r}")
         for i, x in enumerate(impl["coords"][ax]):
             xe = float(lo + (hi - lo) * (2 * i + 1) / (2 * n))
             if abs(x - xe) > TOL * cs:
-                bad = f"centre[{ax}][{i}]={x!r} != lo+(i+1/2)dx={xe!r}"
+                bad.set(f"centre[{ax}][{i}]={x!r} != lo+(i+1/2)dx={xe!r}")
                 break
         if len(impl["coords"][ax]) != n:
-            bad = f"axis {ax} has {len(impl['coords'][ax])} centres for N={n}"
+            bad.set(f"axis {ax} has {len(impl['coords'][ax])} centres for N={n}")
         for i in range(n):
             ve = cell_measure(spec, ax, i)
             if abs(impl["voldata"][ax][i] - ve) > TOL_SUM * axis_measure_outer(spec, ax):
-                bad = f"cell_volume_data[{ax}][{i}]={impl['voldata'][ax][i]!r} != closed form {ve!r}"
+                bad.set(f"cell_volume_data[{ax}][{i}]={impl['voldata'][ax][i]!r} != closed form {ve!r}")
                 break
     vol_e = float(np.prod([axis_measure(spec, ax) for ax in range(len(b))]))
     if abs(impl["volume"] - vol_e) > TOL_SUM * vs:
-        bad = f"volume={impl['volume']!r} != closed form {vol_e!r}"
+        bad.set(f"volume={impl['volume']!r} != closed form {vol_e!r}")
     sv = float(impl["cellvols"].sum())
     if abs(sv - impl["volume"]) > TOL_SUM * vs:
-        bad = f"sum(cell_volumes)={sv!r} != volume={impl['volume']!r}"
+        bad.set(f"sum(cell_volumes)={sv!r} != volume={impl['volume']!r}")
     i1 = float(g.integrate(1))
     if abs(i1 - impl["volume"]) > TOL_SUM * vs:
-        bad = f"integrate(1)={i1!r} != volume={impl['volume']!r}"
+        bad.set(f"integrate(1)={i1!r} != volume={impl['volume']!r}")
     if impl["cellvols"].shape != tuple(spec["shape"]):
-        bad = f"cell_volumes has shape {impl['cellvols'].shape}"
+        bad.set(f"cell_volumes has shape {impl['cellvols'].shape}")
     # the coordinate system's own cell volume over the full range of the symmetric angles
     try:
         d2 = g.discretization / 2
@@ -344,11 +358,11 @@ def leg_geometry(ctx, P, spec):
         xh = g._coords_full(g.cell_coords + d2, value="max")
         cv = np.asarray(g.c.cell_volume(xl, xh), dtype=float)
         if cv.shape != impl["cellvols"].shape or np.max(np.abs(cv - impl["cellvols"])) > TOL_SUM * vs:
-            bad = "coordinates.cell_volume over the full angular range differs from grid.cell_volumes"
+            bad.set("coordinates.cell_volume over the full angular range differs from grid.cell_volumes")
     except Exception as e:  # noqa: BLE001
-        bad = f"coordinates.cell_volume raised {type(e).__name__}: {e}"
+        bad.set(f"coordinates.cell_volume raised {type(e).__name__}: {e}")
     if bad:
-        ctx.monitor_fail("geometry", case, {"problem": bad, "impl": _js(impl)},
+        ctx.monitor_fail("geometry", case, {"problem": bad.msg, "impl": _js(impl)},
                          "centres lo+(i+1/2)dx, dx=(hi-lo)/N, exact cell volumes summing to the volume",
                          f"{spec['cls']}: geometry", key={"grid_class": spec["cls"], "leg": "geometry"})
 
@@ -816,8 +830,15 @@ def leg_contains(ctx, P, spec, rng):
                 gc = np.stack([rr] + ([flat_in[:, 2]] if spec["cls"] == "cylindrical" else []), -1)
         hi = np.array([float(x[1]) for x in b])
         marg = 1e-9 * np.maximum(hi - lo, np.maximum(np.abs(lo), np.abs(hi)))
-        inside = np.all((gc >= lo + marg) & (gc <= hi - marg), axis=-1)
-        outside = np.any((gc < lo - marg) | (gc > hi + marg), axis=-1)
+        if coords == "cell":
+            # no arithmetic between the point and the test: faces count as inside, exactly
+            shp_arr = np.array(spec["shape"], dtype=float)
+            inside = np.all((flat_in >= 0) & (flat_in <= shp_arr), axis=-1)
+            outside = ~inside
+        else:
+            mm = 0.0 * marg if (exact and coords == "grid") else marg
+            inside = np.all((gc >= lo + mm) & (gc <= hi - mm), axis=-1)
+            outside = np.any((gc < lo - marg) | (gc > hi + marg), axis=-1)
         for i, r in enumerate(flat_res):
             if (inside[i] and not r) or (outside[i] and r):
                 ctx.monitor_fail("contains", case, {"index": i, "contains": r, "grid_coords": gc[i].tolist()},
@@ -1321,10 +1342,12 @@ def run(ctx):
     n_grids = ctx.budget(140, 2500)
     # fixed regression cases (always run, all legs)
     for spec, pts in REGRESSION_GRIDS:
-        leg_geometry(ctx, P, spec)
-        leg_distance(ctx, P, spec, rng, force=pts)
-        leg_distance(ctx, P, spec, rng)
         ctx.hist("stream", "regression")
+        if not _guard(ctx, "construct", spec, lambda: build(spec)):
+            continue
+        _guard(ctx, "geometry", spec, lambda: leg_geometry(ctx, P, spec))
+        _guard(ctx, "distance", spec, lambda: leg_distance(ctx, P, spec, rng, force=pts))
+        _guard(ctx, "distance", spec, lambda: leg_distance(ctx, P, spec, rng))
     # every class with 1 cell per axis
     for cls in ["unit", "cartesian", "polar", "spherical", "cylindrical"]:
         for mode in ["dyadic", "decimal"]:
@@ -1338,21 +1361,46 @@ def run(ctx):
         ctx.hist("grid-class", f"{cls}/{len(spec['shape'])}axes/{mode}")
         ctx.hist("cells", "x".join(str(n) for n in spec["shape"]))
         all_legs(ctx, P, spec, rng, full=(i % 3 != 0))
-    leg_coordmaps(ctx, P, rng, ctx.budget(150, 3000))
-    leg_malformed(ctx, rng)
+    _guard(ctx, "coordmaps", None, lambda: leg_coordmaps(ctx, P, rng, ctx.budget(150, 3000)))
+    _guard(ctx, "malformed", None, lambda: leg_malformed(ctx, rng))
     P.run()
 
 
+def _guard(ctx, leg, spec, fn):
+    """run one leg; an exception raised *inside the real code* on a valid input is a failure of
+    the property on that input (reported with the input), one raised by the harness is a broken
+    check"""
+    import traceback
+    from harness.common import paths
+    try:
+        fn()
+        return True
+    except Exception as e:  # noqa: BLE001
+        tb = traceback.extract_tb(e.__traceback__)
+        last = tb[-1].filename if tb else ""
+        if not (last.startswith(paths.REPO) and "harness" not in last):
+            raise
+        case = {"leg": leg, "grid": spec}
+        ctx.count(case, nontrivial=False, leg="crash")
+        ctx.monitor_evals += 1
+        ctx.monitor_fail(leg, case, f"{type(e).__name__}: {e} at {tb[-1].filename}:{tb[-1].lineno}",
+                         "no exception on a valid grid / point", f"{(spec or {}).get('cls')}: real code raised in leg {leg}",
+                         key={"grid_class": (spec or {}).get("cls"), "leg": leg})
+        return False
+
+
 def all_legs(ctx, P, spec, rng, full=True):
-    leg_geometry(ctx, P, spec)
+    if not _guard(ctx, "construct", spec, lambda: build(spec)):
+        return
+    _guard(ctx, "geometry", spec, lambda: leg_geometry(ctx, P, spec))
     if int(np.prod(spec["shape"])) <= 600:
-        leg_integrate(ctx, P, spec, rng)
-        leg_project(ctx, P, spec, rng)
-    leg_transform(ctx, P, spec, rng)
-    leg_contains(ctx, P, spec, rng)
-    leg_normalize(ctx, P, spec, rng)
-    leg_distance(ctx, P, spec, rng)
-    leg_random(ctx, P, spec, rng)
+        _guard(ctx, "integrate", spec, lambda: leg_integrate(ctx, P, spec, rng))
+        _guard(ctx, "project", spec, lambda: leg_project(ctx, P, spec, rng))
+    _guard(ctx, "transform", spec, lambda: leg_transform(ctx, P, spec, rng))
+    _guard(ctx, "contains", spec, lambda: leg_contains(ctx, P, spec, rng))
+    _guard(ctx, "normalize", spec, lambda: leg_normalize(ctx, P, spec, rng))
+    _guard(ctx, "distance", spec, lambda: leg_distance(ctx, P, spec, rng))
+    _guard(ctx, "random", spec, lambda: leg_random(ctx, P, spec, rng))
     _ = full
 
 
